@@ -53,6 +53,11 @@ static void on_fault(int sig, siginfo_t* si, void* ctx)
     siglongjmp(jb, 1);
 }
 
+/* watchdog: a call that does not return within WATCH_S seconds is an observation ("fault:14:..."), not a hang of the harness */
+#include <sys/time.h>
+#define WATCH_S 5
+static void watch(int on) { struct itimerval it; memset(&it, 0, sizeof it); it.it_value.tv_sec = on ? WATCH_S : 0; setitimer(ITIMER_REAL, &it, NULL); }
+
 typedef struct { uint8_t* map; uint8_t* data; } Region;   /* guard | DATA_PAGES | guard */
 
 static Region mkregion(void)
@@ -176,11 +181,11 @@ static void do_op(Region* reg, uint8_t* arena, size_t alen, int readonly, char**
     if (readonly) mprotect(reg->data, DATA_PAGES * PAGE, PROT_READ);
     fault_sig = 0;
     if (sigsetjmp(jb, 1) == 0) {
-        in_call = 1;
+        in_call = 1; watch(1);
         run_op(v, tok[1], tok[2], atol(tok[3]), atol(tok[4]), val, arena + base, &r);
-        in_call = 0;
+        watch(0); in_call = 0;
     } else {
-        in_call = 0;
+        watch(0); in_call = 0;
         snprintf(status, sizeof status, "fault:%d:%ld", fault_sig, (long)((uint8_t*)fault_addr - arena));
     }
     if (readonly) mprotect(reg->data, DATA_PAGES * PAGE, PROT_READ | PROT_WRITE);
@@ -233,8 +238,8 @@ int ext_call(void (*fn)(void*), void* ctx, char* status, size_t slen, uint8_t* a
     strcpy(status, "ok");
     if (cur_ro) mprotect(cur_reg->data, DATA_PAGES * PAGE, PROT_READ);
     fault_sig = 0;
-    if (sigsetjmp(jb, 1) == 0) { in_call = 1; fn(ctx); in_call = 0; }
-    else { in_call = 0; snprintf(status, slen, "fault:%d:%ld", fault_sig, (long)((uint8_t*)fault_addr - arena)); }
+    if (sigsetjmp(jb, 1) == 0) { in_call = 1; watch(1); fn(ctx); watch(0); in_call = 0; }
+    else { watch(0); in_call = 0; snprintf(status, slen, "fault:%d:%ld", fault_sig, (long)((uint8_t*)fault_addr - arena)); }
     if (cur_ro) mprotect(cur_reg->data, DATA_PAGES * PAGE, PROT_READ | PROT_WRITE);
     return status[0] == 'o';
 }
@@ -254,7 +259,7 @@ int main(void)
     static uint8_t buf[MAXARENA];
     struct sigaction sa; memset(&sa, 0, sizeof sa);
     sa.sa_sigaction = on_fault; sa.sa_flags = SA_SIGINFO | SA_NODEFER;
-    sigaction(SIGSEGV, &sa, NULL); sigaction(SIGBUS, &sa, NULL); sigaction(SIGFPE, &sa, NULL); sigaction(SIGILL, &sa, NULL);
+    sigaction(SIGSEGV, &sa, NULL); sigaction(SIGBUS, &sa, NULL); sigaction(SIGFPE, &sa, NULL); sigaction(SIGILL, &sa, NULL); sigaction(SIGALRM, &sa, NULL);
     regE = mkregion(); regS = mkregion(); regP = mkregion(); fill_canary(&regE); fill_canary(&regS);
     setvbuf(stdout, NULL, _IOFBF, 1 << 16);
     while (fgets(line, sizeof line, stdin)) {
